@@ -31,6 +31,12 @@ class Violation:
         return "%s/%s: %s" % ("+".join(self.props), self.rule, self.detail)
 
 
+def relayed(got, want, linelen):
+    """A text is relayed verbatim; a line that would exceed the daemon's 1024-byte message buffer goes out cut at
+    1023 bytes (such texts cannot arrive over a real server link, whose lines are far shorter; C08 sends them)."""
+    return got == want or (linelen >= 1023 and want.startswith(got))
+
+
 class Inst:
     """One connection instance (id, n) as announced by the server."""
 
@@ -510,7 +516,7 @@ class World:
                 self._obs_accept(e, i, cmd, g, ln)
                 decided_here[cid] = i
             elif cmd in "kK":
-                k_seen.append((i, g["text"]))
+                k_seen.append((i, g["text"], len(ln)))
                 i.ended = "k"
                 del self.live[cid]
                 self.verdicts["k"] += 1
@@ -520,7 +526,7 @@ class World:
                     self.v("C05", "unexpected-kill", "client %d rejected without a refusal from an awaited service: %r" % (cid, ln))
             elif cmd == "C":
                 self.counts["challenges"] += 1
-                c_seen.append((i, g["text"]))
+                c_seen.append((i, g["text"], len(ln)))
             elif cmd == "M":
                 if "x" in g["modes"] and g["modes"].startswith("+"):
                     i.mx_seen = True
@@ -533,15 +539,15 @@ class World:
             self.v("C08", "junk-output", "a junk line produced output other than an operator notice: %r" % lines[:3])
         if e["kill"]:
             i, text = e["kill"]
-            hits = [t for (j, t) in k_seen if j is i]
-            if len(hits) != 1 or hits[0] != text:
+            hits = [t for (j, t, n) in k_seen if j is i]
+            if len(hits) != 1 or not any(relayed(t, text, n) for (j, t, n) in k_seen if j is i):
                 self.v(("C05", "C02"), "refusal-not-relayed", "NO %r for client %d gave kill lines %r" % (text, i.cid, hits))
         exp_c = [(i, t) for (i, t) in e["chal"]]
         for (i, t) in exp_c:
-            hits = [x for (j, x) in c_seen if j is i]
-            if hits != [t]:
+            hits = [x for (j, x, n) in c_seen if j is i]
+            if len(hits) != 1 or not any(relayed(x, t, n) for (j, x, n) in c_seen if j is i):
                 self.v("C05", "challenge-not-relayed", "expected C %r for client %d, got %r" % (t, i.cid, hits))
-        for (j, x) in c_seen:
+        for (j, x, _n) in c_seen:
             if any(j is i for (i, _) in exp_c):
                 continue
             if e["unl"] is j:
